@@ -42,7 +42,8 @@ type world struct {
 	name    certs.Name       // name an honest client asks for
 	next    int
 	client  *fix.Identity
-	hidden  bool // probes use the hidden handshake
+	server  *fix.Identity // single-certificate configurations only
+	hidden  bool          // probes use the hidden handshake
 	config  string
 }
 
@@ -101,6 +102,7 @@ func newWorldFor(config string) *world {
 		cfg = fix.ServerConfig(id, cv, 5*time.Second)
 		cfg.IsHidden = config == "single-cert-hidden-only"
 		w.kem, w.name, w.hidden = id.KEM, fix.ServerName, cfg.IsHidden
+		w.server = id
 	case "multi-vhost":
 		var ids []*fix.Identity
 		cfg, ids = vhostServerConfig(w.pki, nil)
@@ -394,6 +396,14 @@ func genC10(r *vh.Runner) {
 			run(c, func() { sniRun(r, c, b) })
 		})
 	}
+	// length fields inside the encrypted certificate vectors are malleable (the
+	// block is decrypted and split before its tag is checked): set them, in
+	// flight, to every value around what is left of the message
+	for _, cfg := range []string{"single-cert", "multi-vhost"} {
+		r.Case(cfg+"/malleable-lengths", map[string]any{"config": cfg}, func(c *vh.Case) {
+			run(c, func() { malleableRun(r, c, cfg) })
+		})
+	}
 	// exhaustive truncations and type-byte grid (thorough: all; quick: a slice of them per run)
 	for _, cfg := range configs {
 		chunks := r.Pick(4, 64)
@@ -652,4 +662,84 @@ func sniRun(r *vh.Runner, c *vh.Case, b int) {
 	if b == 0 {
 		r.Sample(map[string]any{"kind": "sni", "labels": labels[:8], "id_types": 4})
 	}
+}
+
+// malleableRun: an honest discoverable handshake in which one message is
+// modified in flight so that a length field of the encrypted certificate
+// vectors decrypts to a chosen value (stream encryption: XOR of the ciphertext
+// bytes with old^new). ClientAuth (parsed by the server) for every
+// configuration, ServerAuth (parsed by the client) where the harness knows the
+// server's certificates.
+func malleableRun(r *vh.Runner, c *vh.Case, cfg string) {
+	w := newWorldFor(cfg)
+	defer closeServer(c, w)
+	est, err := handshakeTo(w, false)
+	if err != nil {
+		c.Inconclusive("setup handshake failed: " + err.Error())
+		return
+	}
+	defer est.cl.Close()
+	type target struct {
+		msg    byte
+		off    int // offset of the 2-byte length field in the datagram
+		old    int // its plaintext value
+		remain int // bytes of the block after the field
+		what   string
+	}
+	var targets []target
+	cl, ci := len(fix.Raw(w.client.Leaf)), len(fix.Raw(w.client.Int))
+	const clientAuthCerts = 4 + 4 // header, session id
+	targets = append(targets,
+		target{0x05, clientAuthCerts, cl, cl + ci + 2, "ClientAuth:leaf-length"},
+		target{0x05, clientAuthCerts + 2 + cl, ci, ci, "ClientAuth:intermediate-length"})
+	if w.server != nil {
+		sl, si := len(fix.Raw(w.server.Leaf)), len(fix.Raw(w.server.Int))
+		const serverAuthCerts = 4 + 4 + 32 // header, session id, ephemeral key
+		targets = append(targets,
+			target{0x04, serverAuthCerts, sl, sl + si + 2, "ServerAuth:leaf-length"},
+			target{0x04, serverAuthCerts + 2 + sl, si, si, "ServerAuth:intermediate-length"})
+	}
+	n := 0
+	for _, t := range targets {
+		values := []int{0, 1, 2, t.remain - 3, t.remain - 2, t.remain - 1, t.remain, t.remain + 1, t.remain + 2, t.old - 1, t.old + 1, 0x7fff, 0x8000, 0xffff}
+		for _, v := range values {
+			if v < 0 || v > 0xffff || v == t.old {
+				continue
+			}
+			mask := t.old ^ v
+			hcl, ep := w.newClient(w.name, false)
+			caddr := ep.Source()
+			done1 := false
+			w.net.SetPolicy(func(d *simnet.Datagram) []simnet.Delivery {
+				flow := d.Src.String() == caddr.String() || d.Dst.String() == caddr.String()
+				if flow && !done1 && len(d.Data) > t.off+1 && d.Data[0] == t.msg {
+					done1 = true
+					m := append([]byte(nil), d.Data...)
+					m[t.off] ^= byte(mask >> 8)
+					m[t.off+1] ^= byte(mask)
+					return []simnet.Delivery{{Data: m, Src: d.Src, Dst: d.Dst, Tag: "malleable:" + t.what}}
+				}
+				return []simnet.Delivery{{Data: d.Data, Src: d.Src, Dst: d.Dst}}
+			})
+			done := bub.Go(func() { hcl.Handshake() })
+			if !bub.Within(done, 40*time.Second) {
+				hcl.Close()
+				<-done
+			}
+			w.net.SetPolicy(nil)
+			hcl.Close()
+			n++
+			r.Count("malleable:"+t.what, 1)
+			if !done1 {
+				r.Count("malleable_target_message_not_seen", 1)
+			}
+		}
+		bub.Settle(20 * time.Millisecond)
+		if !probe(r, c, w, est, "malleable", map[string]any{"config": cfg, "field": t.what}) {
+			return
+		}
+	}
+	r.Count("evaluations", int64(n))
+	r.Count("datagrams_injected", int64(n))
+	r.NontrivialN(int64(n))
 }
